@@ -3,9 +3,11 @@ package core
 import (
 	"bytes"
 	"context"
+	"fmt"
 	"hash/crc32"
 	"io"
 	"io/ioutil"
+	"strings"
 	"time"
 
 	context2 "github.com/oneconcern/datamon/pkg/context"
@@ -60,6 +62,10 @@ func (label *Label) UploadDescriptor(ctx context.Context, bundle *Bundle) (err e
 	err = RepoExists(bundle.RepoID, bundle.contextStores)
 	if err != nil {
 		return err
+	}
+	if strings.Contains(label.Descriptor.Name, "/") {
+		// the label name is one component of the key labels/{repo}/{label}/label.yaml
+		return fmt.Errorf("invalid label name %q: a label name may not contain \"/\"", label.Descriptor.Name)
 	}
 	label.Descriptor.BundleID = bundle.BundleID
 	buffer, err := yaml.Marshal(label.Descriptor)
